@@ -93,7 +93,7 @@ def html_to_nodes(
             content = "\n".join(
                 f":{k}: {v}"
                 for k, v in sorted(child.attrs.items())
-                if k in OPTION_KEYS_IMAGE
+                if k in OPTION_KEYS_IMAGE and v is not None
             )
             nodes_list.extend(
                 renderer.run_directive(
@@ -117,7 +117,7 @@ def html_to_nodes(
             options = "\n".join(
                 f":{k}: {v}"
                 for k, v in sorted(child.attrs.items())
-                if k in OPTION_KEYS_ADMONITION
+                if k in OPTION_KEYS_ADMONITION and v is not None
             ).rstrip()
             new_children = []
             for child in children:
